@@ -10,10 +10,26 @@ import proofs
 import minerals_trace as MT
 from props import c01
 
-FILES = ["Model_core.v", "Model_minerals.v", "Proofs_core.v", "Proofs_minerals.v", "Proofs_rhs.v",
+FILES = ["Model_core.v", "Model_minerals.v", "Proofs_core.v", "Proofs_minerals.v", "Proofs_rhs.v", "Proofs_multiphase.v",
          "Entry_core.v", "Extract_core.v"]
+FILES += [f for f in MT.GLUE_TIE_FILES if f not in FILES]   # tie T of the glue model
 PROP = "Properties/C08.v"
 TOL = 1e-3   # solver tolerance (atol 1e-4 per component): alarm threshold for comparisons that are not required to be bitwise
+
+# flow families with a non-zero strain rate from t = 0 on (the fraction can only matter where the texture evolves)
+STRAINING = ["simple", "pure", "axisym", "general", "trace", "time", "position", "shared"]
+TEX = ["random", "clustered", "nonuniform"]   # not "single": identical grains have equal strain energies, so boundary migration (the only
+                                              # place the fraction enters) is idle and the fraction cannot show
+ACCEPTED_REGIMES = (4, 6, 0, 7, 1)          # the regimes core.derivatives accepts
+PHI_GRID = [0.1, 0.3, 0.5, 0.7, 0.9]
+PHI_BOUNDARY = [0.0, 1.0]
+# next to the boundary: negative zero, smallest subnormal, smallest normal, one ulp, 1 - ulp/2 (complement = 1.0 - phi)
+PHI_NEAR = [-0.0, 5e-324, 2.2250738585072014e-308, 2.220446049250313e-16, 1.0 - 2.0 ** -53]
+# unusual-but-legal spellings of the two option values; the last two make numba compile one more specialisation
+# of core.derivatives each (measured: ~1.6 s per process each); they apply to fractions exactly representable that way
+VARIANTS_QUICK = ("list", "ndarray", "int-ordinals", "float32", "pyint")
+VARIANTS_THOROUGH = VARIANTS_QUICK
+C01_ONLY = ("orthonormality error", "left-handed")   # C01's open finding (matrix_diffusion drift) is not C08's subject
 
 
 def tex_diff(ma, mb):
@@ -33,86 +49,439 @@ def tex_identical(ma, mb):
             and all(np.asarray(a).tobytes() == np.asarray(b).tobytes() for a, b in zip(ma.fractions, mb.fractions)))
 
 
-def run(chk):
-    ok, br = proofs.prove(chk, FILES, PROP, groups=("core",), gen_modules=())
+# --------------------------------------------------------------------------
+# helpers shared by run() and replay()
+# --------------------------------------------------------------------------
+def own_other(sc):
     import pydrex
     OL, EN = pydrex.MineralPhase.olivine, pydrex.MineralPhase.enstatite
-    chk.cov["trusted_base"] = common.TRUSTED_COMMON + [
+    return (OL, EN) if sc["pair"][0] == 0 else (EN, OL)
+
+
+def fails_of(h):
+    """runtime-monitor failures of a history; in matrix_diffusion C01's open finding (orthonormality drift) is dropped"""
+    sc = h["sc"]
+    diffusion = sc["regime"] == 1 or bool(sc.get("regime_switch") and 1 in sc["regime_switch"][:2])
+    return [m for _, m in h["fails"] if not (diffusion and m.startswith(C01_ONLY))]
+
+
+def errored(h):
+    return any(u["trace"].error is not None for u in h["updates"])
+
+
+def snap_bytes(m):
+    return [(np.asarray(o).tobytes(), np.asarray(f).tobytes()) for o, f in zip(m.orientations, m.fractions)]
+
+
+def fingerprint(params):
+    return {k: (type(v).__name__, repr(v)) for k, v in params.items()}
+
+
+def drive(rec, m, params, get_L, get_x, sc, dt, F=None, t=0.0, nupd=None):
+    """update an EXISTING mineral nupd times (same time grid as c01.run_history); returns (F, t, error)"""
+    F = np.eye(3) if F is None else F
+    for _ in range(sc["nupd"] if nupd is None else nupd):
+        kw = {}
+        if sc.get("regime_switch"):
+            kw["get_regime"] = (lambda tt, xx, sc=sc: MT.regime_at(sc, tt))
+        tr, Fn = rec.update(m, params, F, get_L, (t, t + dt, get_x), **kw)
+        if tr.error is not None:
+            return F, t, tr.error
+        F = Fn
+        t += dt
+    return F, t, None
+
+
+def option_variant(name, ass, frs):
+    """the same assemblage / fractions in another legal spelling (None: not exactly representable that way)"""
+    if name == "list":
+        return list(ass), list(frs)
+    if name == "ndarray":
+        return tuple(ass), np.array(frs, dtype=np.float64)
+    if name == "int-ordinals":
+        return tuple(int(p) for p in ass), tuple(frs)
+    if name == "float32":
+        if any(float(np.float32(x)) != x for x in frs):
+            return None
+        return tuple(ass), tuple(np.float32(x) for x in frs)
+    if name == "pyint":
+        if any(x not in (0.0, 1.0) for x in frs):
+            return None
+        return tuple(ass), tuple(int(x) for x in frs)
+    raise ValueError(name)
+
+
+def paired_probe(rec, sc, phi, chk=None, bad=None, variants=()):
+    """Clauses of C08 for ONE scenario and ONE own fraction phi (complement 1.0 - phi):
+    (a) both list orders, (b) vs the single-phase mineral with M* x phi, (c) the other phase's entry,
+    (d) identically built twins, (f) other spellings of the option values.  Returns (messages, difference of (b))."""
+    msgs = []
+    own, other = own_other(sc)
+    comp = 1.0 - phi
+    # (a) in assemblage, both list orders
+    hA = c01.run_history(rec, sc, (own, other), (phi, comp))
+    hB = c01.run_history(rec, sc, (other, own), (comp, phi))
+    if chk is not None:
+        c01.validate_traces(chk, hA, bad)
+        c01.validate_traces(chk, hB, bad)
+    msgs += fails_of(hA) + fails_of(hB)
+    if not tex_identical(hA["mineral"], hB["mineral"]):
+        msgs.append("simultaneously permuting the phase list and the fraction list changed the result")
+    # (b) alone with M* x phi
+    sc1 = dict(sc, params=dict(sc["params"], gbm_mobility=sc["params"]["gbm_mobility"] * phi))
+    h1 = c01.run_history(rec, sc1, (own,), (1.0,))
+    if chk is not None:
+        c01.validate_traces(chk, h1, bad)
+    d = tex_diff(hA["mineral"], h1["mineral"])
+    if d > TOL:
+        msgs.append(f"mineral in assemblage differs from the single-phase mineral with mobility M* x phi by {d:.3e}")
+    if len(hA["F_hist"]) == len(h1["F_hist"]):
+        dF = max(float(np.abs(a - b).max() / max(1.0, np.abs(b).max())) for a, b in zip(hA["F_hist"], h1["F_hist"]))
+        if not dF <= TOL:
+            msgs.append(f"deformation gradient returned in the assemblage differs from the single-phase one by {dF:.3e} (relative)")
+    else:
+        msgs.append("the run in the assemblage and the single-phase run completed a different number of updates")
+    # (c) the other phase's fraction list entry must not matter beyond its own: wrong-fraction probe
+    hC = c01.run_history(rec, sc, (own, other), (phi, 0.123456))
+    if not tex_identical(hA["mineral"], hC["mineral"]):
+        msgs.append("the other phase's volume fraction influenced this mineral")
+    # (d) identically built minerals: bit-identical
+    hD = c01.run_history(rec, sc, (own, other), (phi, comp))
+    if not tex_identical(hA["mineral"], hD["mineral"]):
+        msgs.append("two minerals built and driven identically differ")
+    # (f) other legal spellings of phase_assemblage / phase_fractions: bit-identical
+    if variants and not errored(hA):
+        for name in variants:
+            v = option_variant(name, (own, other), (phi, comp))
+            if v is None:
+                continue
+            m, params, get_L, get_x, _ = MT.build(sc, (own, other), (phi, comp))
+            params["phase_assemblage"], params["phase_fractions"] = v
+            Fv, _, err = drive(rec, m, params, get_L, get_x, sc, hA["dt"])
+            if chk is not None:
+                chk.cov["option_variants"][name] = chk.cov["option_variants"].get(name, 0) + 1
+            if err is not None:
+                msgs.append(f"option values spelled as [{name}]: update raised {type(err).__name__}: {err}")
+            elif not tex_identical(m, hA["mineral"]) or Fv.tobytes() != hA["F_hist"][-1].tobytes():
+                msgs.append(f"option values spelled as [{name}] (same phases, same fractions) changed the result")
+    return msgs, d
+
+
+def alias_probe(rec, sc, phi):
+    """Hidden state / aliasing: two minerals built from the SAME initial array objects, one params dict and one
+    starting F shared by every call, the returned F modified in place by the caller, updates of decoy minerals
+    (same phase with other fractions and mobility, other phase) interleaved -- some of them through the SAME params dict,
+    edited for the decoy and set back -- all bit-identical to an undisturbed run."""
+    import pydrex
+    msgs = []
+    own, other = own_other(sc)
+    comp = 1.0 - phi
+    ass, frs = (own, other), (phi, comp)
+    href = c01.run_history(rec, sc, ass, frs)
+    if errored(href):
+        return fails_of(href)
+    dt = href["dt"]
+    O, f = MT.init_texture(np.random.default_rng(sc["seed"]), sc["n"], sc["tkind"])
+    O0, f0 = O.copy(), f.copy()
+
+    def mk():
+        return pydrex.Mineral(phase=sc["pair"][0], fabric=sc["pair"][1], regime=sc["regime"], n_grains=sc["n"],
+                              fractions_init=f, orientations_init=O)
+    A, B = mk(), mk()
+    _, params, get_L, get_x, _ = MT.build(sc, ass, frs)
+    pkeep = fingerprint(params)
+    dec = {k: v for k, v in sc.items() if k != "regime_switch"}
+
+    def decoy_on_shared_dict(seed_off, dass, dfrs):
+        """the caller's ONE params dict, edited for another mineral's update and set back afterwards"""
+        dsc = dict(dec, seed=sc["seed"] + seed_off)
+        D, _, dL, dx, _ = MT.build(dsc, dass, dfrs)
+        saved = {k: params[k] for k in ("phase_assemblage", "phase_fractions", "gbm_mobility")}
+        params.update(phase_assemblage=tuple(dass), phase_fractions=tuple(dfrs), gbm_mobility=saved["gbm_mobility"] + 25.0)
+        drive(rec, D, params, dL, dx, dsc, dt, nupd=1)
+        params.update(saved)
+
+    decoy_on_shared_dict(3, (other, own), (0.375, 0.625))          # same phase, another fraction, BEFORE this mineral's first update
+    F0 = np.eye(3)
+    Fa, ta, err = drive(rec, A, params, get_L, get_x, sc, dt, F=F0, nupd=1)
+    if err is not None:
+        return [f"aliased twin: update raised {type(err).__name__}: {err}"]
+    if O.tobytes() != O0.tobytes() or f.tobytes() != f0.tobytes():
+        msgs.append("the update modified the caller's initial texture arrays in place")
+    if len(B.orientations) != 1 or snap_bytes(B) != [(O0.tobytes(), f0.tobytes())]:
+        msgs.append("updating one mineral changed another mineral built from the same initial arrays")
+    if F0.tobytes() != np.eye(3).tobytes():
+        msgs.append("the update modified the caller's deformation gradient in place")
+    if fingerprint(params) != pkeep:
+        msgs.append("the update modified the caller's params dict")
+    keepA = snap_bytes(A)
+    Fa_keep = Fa.copy()
+    Fa *= 3.0                       # the caller reuses the returned array
+    Fa[0, 0] = np.nan
+    if snap_bytes(A) != keepA:
+        msgs.append("modifying the returned deformation gradient changed the mineral's stored texture")
+    # decoys with their own params dicts: same phase / other fractions, mobility, regime; and the other phase
+    decoy_on_shared_dict(7, (own, other), (0.875, 0.125))
+    for dsc, dass, dfrs in (
+            (dict(dec, seed=sc["seed"] + 5, regime=(4 if sc["regime"] == 6 else 6),
+                  params=dict(sc["params"], gbm_mobility=sc["params"]["gbm_mobility"] + 50.0)), (other, own), (0.25, 0.75)),
+            (dict(dec, seed=sc["seed"] + 9, regime=4, pair=((1, 5) if sc["pair"][0] == 0 else (0, 0))), ass, (0.6, 0.4))):
+        D, dparams, dL, dx, _ = MT.build(dsc, dass, dfrs)
+        drive(rec, D, dparams, dL, dx, dsc, dt, nupd=1)
+    Fa2, _, err = drive(rec, A, params, get_L, get_x, sc, dt, F=Fa_keep, t=ta, nupd=sc["nupd"] - 1)
+    Fb, _, errb = drive(rec, B, params, get_L, get_x, sc, dt, F=F0)
+    if err is not None or errb is not None:
+        e = err if err is not None else errb
+        msgs.append(f"aliased twin: update raised {type(e).__name__}: {e}")
+        return msgs
+    Fref = href["F_hist"][-1]
+    if not tex_identical(A, href["mineral"]) or Fa2.tobytes() != Fref.tobytes():
+        msgs.append("updates of other minerals (other fractions / mobility / phase, own or reused-and-restored params dict) before / between this mineral's updates changed its result")
+    if not tex_identical(B, href["mineral"]) or Fb.tobytes() != Fref.tobytes():
+        msgs.append("a mineral built from the same initial arrays as an already updated one differs from an independently built one")
+    if fingerprint(params) != pkeep:
+        msgs.append("the update modified the caller's params dict")
+    return msgs
+
+
+def bulk_probe(sco, phi):
+    """(e) bulk update: order of the minerals, interleaving, batch vs single calls, common starting F."""
+    import pydrex
+    OL, EN = pydrex.MineralPhase.olivine, pydrex.MineralPhase.enstatite
+    msgs = []
+    sce = dict(sco, pair=(1, 5), seed=sco["seed"] + 17)
+    sce["flow_seed"] = sco["seed"] + 1
+    ass, frs = (OL, EN), (phi, 1 - phi)
+
+    def fresh():
+        mo, params, get_L, get_x, _ = MT.build(sco, ass, frs)
+        me, _, _, _, _ = MT.build(sce, ass, frs)
+        return mo, me, params, get_L, get_x
+
+    eye = np.eye(3)
+    mo1, me1, params, get_L, get_x = fresh()
+    pkeep = fingerprint(params)
+    F1a = pydrex.update_all([mo1, me1], params, eye, get_L, (0.0, 0.25, get_x))
+    F1a_keep = F1a.copy()
+    F1 = pydrex.update_all([mo1, me1], params, F1a, get_L, (0.25, 0.5, get_x))
+    if eye.tobytes() != np.eye(3).tobytes() or F1a.tobytes() != F1a_keep.tobytes():
+        msgs.append("update_all modified the caller's deformation gradient in place")
+    if fingerprint(params) != pkeep:
+        msgs.append("update_all modified the caller's params dict")
+    mo2, me2, params, get_L, get_x = fresh()
+    F2a = pydrex.update_all([me2, mo2], params, np.eye(3), get_L, (0.0, 0.25, get_x))
+    F2 = pydrex.update_all([me2, mo2], params, F2a, get_L, (0.25, 0.5, get_x))
+    mo3, me3, params, get_L, get_x = fresh()     # fully separated: all olivine updates first
+    Fa = mo3.update_orientations(params, np.eye(3), get_L, (0.0, 0.25, get_x))
+    Fa2 = mo3.update_orientations(params, Fa, get_L, (0.25, 0.5, get_x))
+    Fb = me3.update_orientations(params, np.eye(3), get_L, (0.0, 0.25, get_x))
+    Fb2 = me3.update_orientations(params, Fb, get_L, (0.25, 0.5, get_x))
+    # F fed to the second call differs by rounding between orders (last mineral's F), so compare
+    # first-interval snapshots bitwise and the rest at solver tolerance
+    for a, b, nm in ((mo1, mo2, "olivine"), (me1, me2, "enstatite"), (mo1, mo3, "olivine"), (me1, me3, "enstatite")):
+        if np.asarray(a.orientations[1]).tobytes() != np.asarray(b.orientations[1]).tobytes():
+            msgs.append(f"{nm}: reordering / interleaving the minerals changed the first update bitwise")
+        if tex_diff(a, b) > TOL:
+            msgs.append(f"{nm}: reordering / interleaving the minerals changed the textures by {tex_diff(a, b):.3e}")
+    # batch vs single calls: update_all returns the LAST mineral's F, every mineral starts from the common F
+    if F1a_keep.tobytes() != np.asarray(Fb).tobytes() or np.asarray(F2a).tobytes() != np.asarray(Fa).tobytes():
+        msgs.append("update_all did not return the deformation gradient of its last mineral updated from the common starting F")
+    for Fx, nm in ((F1, "[olivine, enstatite]"), (F2, "[enstatite, olivine]")):
+        for Fy in (Fa2, Fb2):
+            if not float(np.abs(np.asarray(Fx) - np.asarray(Fy)).max()) <= TOL * max(1.0, float(np.abs(Fy).max())):
+                msgs.append(f"update_all over {nm}: returned deformation gradient differs from the separately updated minerals'")
+    # separately updated minerals that are fed the bulk run's F are bitwise comparable over the whole history
+    mo4, me4, params, get_L, get_x = fresh()
+    G = pydrex.update_all([mo4], params, np.eye(3), get_L, (0.0, 0.25, get_x))         # batch of one
+    if G.tobytes() != np.asarray(Fa).tobytes() or snap_bytes(mo4) != snap_bytes(mo3)[:2]:
+        msgs.append("update_all over a single mineral differs from that mineral's update_orientations")
+    mo4.update_orientations(params, F1a_keep, get_L, (0.25, 0.5, get_x))
+    me4.update_orientations(params, np.eye(3), get_L, (0.0, 0.25, get_x))
+    me4.update_orientations(params, F1a_keep, get_L, (0.25, 0.5, get_x))
+    if not tex_identical(mo4, mo1) or not tex_identical(me4, me1):
+        msgs.append("minerals updated in one update_all call differ bitwise from the same minerals updated by separate calls from the same F")
+    return msgs
+
+
+DEGENERATE = ("fractions-long", "duplicate-phase", "phase-missing", "fractions-short")
+
+
+def degenerate_probe(rec, sc, phi, kind, chk=None, bad=None):
+    """Malformed / degenerate option values.  Extra trailing fractions and a repeated phase (first occurrence wins,
+    as in the model's index_of) must not change the result; an update that fails because the own phase is missing /
+    has no fraction must raise, leave the stored history alone and not poison later updates."""
+    msgs = []
+    own, other = own_other(sc)
+    comp = 1.0 - phi
+    href = c01.run_history(rec, sc, (own, other), (phi, comp))
+    if errored(href):
+        return fails_of(href)
+    if kind == "fractions-long":
+        h = c01.run_history(rec, sc, (own, other), (phi, comp, 0.5))
+        msgs += fails_of(h)
+        if not tex_identical(h["mineral"], href["mineral"]):
+            msgs.append("a surplus trailing entry of phase_fractions influenced this mineral")
+    elif kind == "duplicate-phase":
+        for ass, frs in (((own, own, other), (phi, 0.9, comp)), ((other, own, own), (comp, phi, 0.9))):
+            h = c01.run_history(rec, sc, ass, frs)
+            if chk is not None:
+                c01.validate_traces(chk, h, bad)
+            msgs += fails_of(h)
+            if not tex_identical(h["mineral"], href["mineral"]):
+                msgs.append("with a phase listed twice the fraction of its first occurrence was not the one used")
+    else:
+        ass, frs = ((other,), (1.0,)) if kind == "phase-missing" else ((other, own), (1.0,))
+        m, params, get_L, get_x, _ = MT.build(sc, ass, frs)
+        keep = snap_bytes(m)
+        F0 = np.eye(3)
+        _, _, err = drive(rec, m, params, get_L, get_x, sc, href["dt"], F=F0, nupd=1)
+        if err is None:
+            msgs.append(f"[{kind}] the update did not raise although this mineral's phase has no volume fraction")
+        if snap_bytes(m) != keep:
+            msgs.append(f"[{kind}] the failed update changed the stored history")
+        if F0.tobytes() != np.eye(3).tobytes():
+            msgs.append(f"[{kind}] the failed update modified the caller's deformation gradient")
+        if kind == "phase-missing" and chk is not None and rec.traces and rec.traces[-1].y_start is not None:
+            y0 = rec.traces[-1].y_start
+            L, s, Sd = MT.oracle_values(get_L, get_x, 0.0, y0)
+            r = common.run_model([MT.rhs_line(sc, params, L, s, Sd, y0, t=0.0)], "core")[0]
+            chk.note_case(("degenerate", kind, sc["seed"]), nontrivial=True)
+            if r[0] != "ERR":
+                bad.append((sc, f"own phase missing from the assemblage: the implementation raised, the model returned {r[0]}"))
+        # the same mineral object, now with well-formed options, must behave like a fresh one
+        params["phase_assemblage"], params["phase_fractions"] = (own, other), (phi, comp)
+        F, _, err2 = drive(rec, m, params, get_L, get_x, sc, href["dt"], F=F0)
+        if err2 is not None:
+            msgs.append(f"[{kind}] after a failed update a well-formed update raised {type(err2).__name__}: {err2}")
+        elif not tex_identical(m, href["mineral"]) or F.tobytes() != href["F_hist"][-1].tobytes():
+            msgs.append(f"[{kind}] a failed update left state behind: later well-formed updates differ from a fresh mineral's")
+    return msgs
+
+
+def boundary_cells(rng, tier):
+    """structured sweep: every accepted regime x both phases x fractions exactly 0 and exactly 1 (+ one grid value in
+    the cells the random stream never visits: olivine / frictional_yielding, enstatite / matrix_dislocation, the null
+    regimes and matrix_diffusion), straining flows; one cell per regime has the regime supplied by a get_regime callable"""
+    cells = []
+    reps = 1 if tier == "quick" else 4
+    for _ in range(reps):
+        for regime in ACCEPTED_REGIMES:
+            for ph in (0, 1):
+                phis = list(PHI_BOUNDARY) + [float(PHI_GRID[rng.integers(5)])]
+                if tier == "quick" and regime in (0, 7):
+                    phis = [PHI_BOUNDARY[(ph + regime) % 2]]          # null regimes: nothing evolves, one cell each
+                for phi in phis:
+                    pair = (0, int(rng.integers(0, 5))) if ph == 0 else (1, 5)
+                    sc = MT.scenario(rng, regime=regime, pair=pair, n=int(rng.integers(3, 10)), nupd=2,
+                                     lkind=STRAINING[rng.integers(len(STRAINING))], tkind=TEX[rng.integers(len(TEX))])
+                    cells.append((sc, phi, "boundary" if phi in PHI_BOUNDARY else "grid"))
+    # the regime comes from a get_regime callable (overrides the constructed one / switches along the history)
+    for (built, r1, r2), phi in zip(((7, 4, 4), (4, 6, 4), (4, 4, 6), (0, 6, 6)), (0.0, 0.0, 1.0, 1.0)):
+        for ph in ((0, 1) if tier == "thorough" else (int(rng.integers(2)),)):
+            pair = (0, int(rng.integers(0, 5))) if ph == 0 else (1, 5)
+            sc = MT.scenario(rng, regime=built, pair=pair, n=int(rng.integers(3, 8)), nupd=2,
+                             lkind=("simple", "general")[int(rng.integers(2))], tkind=TEX[rng.integers(len(TEX))])
+            sc["regime_switch"] = [r1, r2, 0.0 if r1 == r2 else float(rng.uniform(0.05, 0.3))]
+            cells.append((sc, phi, "boundary"))
+    return cells
+
+
+def run(chk):
+    ok, br = proofs.prove(chk, FILES, PROP, groups=("core",), gen_modules=MT.GLUE_TIE_GEN)
+    import pydrex
+    OL, EN = pydrex.MineralPhase.olivine, pydrex.MineralPhase.enstatite
+    chk.cov["trusted_base"] = common.TRUSTED_COMMON + [MT.GLUE_TIE_TRUSTED,
         "hand-written Model_minerals.lookup_fraction / rhs, tied by trace validation in multiphase assemblages of both orders",
         "NOT expressible in the model: hidden runtime state (LSODA's Fortran work arrays, numba caches, module globals): interleaving / reordering / bit-identity are runtime-checked on paired runs",
     ]
     chk.cov["rule"] = ("paired runs: a mineral in assemblages (ol,en) / (en,ol) with fractions (phi, 1-phi), phi on a grid, vs the same mineral alone with M* x phi "
                        "(texture difference must stay below the solver tolerance; the vector fields are proved equal); simultaneous permutation of phase and fraction "
                        "lists, reordered mineral lists in update_all, interleaved update sequences and identically built minerals must give bit-identical results; "
-                       "every update trace-validated; non-trivial = texture changed")
-    bad, mon = [], []
+                       "every update trace-validated; non-trivial = texture changed.  "
+                       "Boundary sweep: every accepted regime {4,6,0,7,1} x {olivine, enstatite} x phi exactly 0 and exactly 1 (+ a grid value), both list orders, "
+                       "straining flows, incl. regimes supplied by a get_regime callable; near-boundary fractions (-0.0, subnormal, one ulp, 1 - ulp/2); "
+                       "option values spelled as lists / ndarray / int ordinals / float32 / Python int (where exactly representable) must be bit-identical; "
+                       "aliasing stream (two minerals from the same initial arrays, shared params dict and starting F, returned F modified in place, decoy minerals "
+                       "with other fractions interleaved); batch vs single calls of update_all; degenerate stream (surplus fractions, duplicated phase, own phase "
+                       "missing, too few fractions: must raise without touching the history or poisoning later updates)")
+    bad, mon = [], []          # mon: (probe kind, scenario, phi, message, extra replay fields)
     rng = np.random.default_rng(chk.seed)
+    rng2 = np.random.default_rng([chk.seed, 0xC08])      # the families added later: independent stream, same seed
+    hist = chk.cov.setdefault("phi_family_histogram", {})
+    cells_h = chk.cov.setdefault("boundary_cells(regime/phase/phi)", {})
+    chk.cov["option_variants"] = {}
+    probes_h = chk.cov.setdefault("probe_histogram", {})
+
+    def count(h, k):
+        h[k] = h.get(k, 0) + 1
+
     if br.drivers.get("core", 1) is None:
         worst = 0.0
+        variants = VARIANTS_QUICK if chk.tier == "quick" else VARIANTS_THOROUGH
         with MT.Recorder() as rec:
             N = 5 if chk.tier == "quick" else 60
             for i in range(N):
                 pair = (0, int(rng.integers(0, 5))) if i % 2 == 0 else (1, 5)
                 sc = MT.scenario(rng, regime=int((4, 6)[i % 2]), pair=pair, n=int(rng.integers(3, 12)), nupd=2)
                 phi = float([0.1, 0.3, 0.5, 0.7, 0.9][rng.integers(5)])
-                own, other = (OL, EN) if pair[0] == 0 else (EN, OL)
-                # (a) in assemblage, both list orders
-                hA = c01.run_history(rec, sc, (own, other), (phi, 1 - phi))
-                hB = c01.run_history(rec, sc, (other, own), (1 - phi, phi))
-                c01.validate_traces(chk, hA, bad)
-                c01.validate_traces(chk, hB, bad)
-                mon += [(sc, phi, m) for _, m in hA["fails"] + hB["fails"]]
-                if not tex_identical(hA["mineral"], hB["mineral"]):
-                    mon.append((sc, phi, "simultaneously permuting the phase list and the fraction list changed the result"))
-                # (b) alone with M* x phi
-                sc1 = dict(sc, params=dict(sc["params"], gbm_mobility=sc["params"]["gbm_mobility"] * phi))
-                h1 = c01.run_history(rec, sc1, (own,), (1.0,))
-                c01.validate_traces(chk, h1, bad)
-                d = tex_diff(hA["mineral"], h1["mineral"])
+                msgs, d = paired_probe(rec, sc, phi, chk, bad)
                 worst = max(worst, d)
-                if d > TOL:
-                    mon.append((sc, phi, f"mineral in assemblage differs from the single-phase mineral with mobility M* x phi by {d:.3e}"))
-                # (c) the other phase's fraction list entry must not matter beyond its own: wrong-fraction probe
-                hC = c01.run_history(rec, sc, (own, other), (phi, 0.123456))
-                if not tex_identical(hA["mineral"], hC["mineral"]):
-                    mon.append((sc, phi, "the other phase's volume fraction influenced this mineral"))
-                # (d) identically built minerals: bit-identical
-                hD = c01.run_history(rec, sc, (own, other), (phi, 1 - phi))
-                if not tex_identical(hA["mineral"], hD["mineral"]):
-                    mon.append((sc, phi, "two minerals built and driven identically differ"))
-            # (e) bulk update: order of minerals, interleaving
-            for i in range(3 if chk.tier == "quick" else 30):
-                sco = MT.scenario(rng, regime=4, pair=(0, int(rng.integers(0, 5))), n=6, nupd=1)
-                sce = dict(sco, pair=(1, 5), seed=sco["seed"] + 17)
-                sce["flow_seed"] = sco["seed"] + 1
-                phi = float(rng.uniform(0.2, 0.8))
-                ass, frs = (OL, EN), (phi, 1 - phi)
-
-                def fresh():
-                    mo, params, get_L, get_x, _ = MT.build(sco, ass, frs)
-                    me, _, _, _, _ = MT.build(sce, ass, frs)
-                    return mo, me, params, get_L, get_x
-
-                mo1, me1, params, get_L, get_x = fresh()
-                F1 = pydrex.update_all([mo1, me1], params, np.eye(3), get_L, (0.0, 0.25, get_x))
-                F1 = pydrex.update_all([mo1, me1], params, F1, get_L, (0.25, 0.5, get_x))
-                mo2, me2, params, get_L, get_x = fresh()
-                F2 = pydrex.update_all([me2, mo2], params, np.eye(3), get_L, (0.0, 0.25, get_x))
-                F2 = pydrex.update_all([me2, mo2], params, F2, get_L, (0.25, 0.5, get_x))
-                mo3, me3, params, get_L, get_x = fresh()     # fully separated: all olivine updates first
-                Fa = mo3.update_orientations(params, np.eye(3), get_L, (0.0, 0.25, get_x))
-                Fa2 = mo3.update_orientations(params, Fa, get_L, (0.25, 0.5, get_x))
-                Fb = me3.update_orientations(params, np.eye(3), get_L, (0.0, 0.25, get_x))
-                me3.update_orientations(params, Fb, get_L, (0.25, 0.5, get_x))
+                mon += [("paired", sc, phi, m, {}) for m in msgs]
+                count(hist, "grid")
+                count(probes_h, "paired")
+            # boundary of the simplex, every accepted regime, both phases (both list orders inside the probe)
+            for sc, phi, fam in boundary_cells(rng2, chk.tier):
+                msgs, d = paired_probe(rec, sc, phi, chk, bad, variants=variants)
+                worst = max(worst, d)
+                mon += [("paired", sc, phi, m, {"variants": list(variants)}) for m in msgs]
+                count(hist, fam if fam == "grid" else f"boundary-{phi:g}")
+                reg = sc["regime"] if not sc.get("regime_switch") else "get_regime:%d->%d" % tuple(sc["regime_switch"][:2])
+                count(cells_h, f"{reg}/{('olivine', 'enstatite')[sc['pair'][0]]}/{phi:g}")
+                count(probes_h, "paired")
+            # next to the boundary + uniform draws from the closed interval
+            near = list(PHI_NEAR) if chk.tier == "thorough" else [PHI_NEAR[j] for j in rng2.permutation(len(PHI_NEAR))[:3]]
+            unif = [float(rng2.uniform(0, 1)) for _ in range(2 if chk.tier == "quick" else 40)]
+            for j, phi in enumerate(near + unif):
+                pair = (0, int(rng2.integers(0, 5))) if j % 2 == 0 else (1, 5)
+                sc = MT.scenario(rng2, regime=int((4, 6)[(j // 2) % 2]), pair=pair, n=int(rng2.integers(3, 10)), nupd=2,
+                                 lkind=STRAINING[rng2.integers(len(STRAINING))], tkind=TEX[rng2.integers(len(TEX))])
+                msgs, d = paired_probe(rec, sc, phi, chk, bad, variants=("list",))
+                worst = max(worst, d)
+                mon += [("paired", sc, phi, m, {"variants": ["list"]}) for m in msgs]
+                count(hist, "near-boundary" if j < len(near) else "uniform[0,1)")
+                count(probes_h, "paired")
+            # hidden state / aliasing stream
+            for j in range(4 if chk.tier == "quick" else 40):
+                pair = (0, int(rng2.integers(0, 5))) if j % 2 == 0 else (1, 5)
+                sc = MT.scenario(rng2, regime=int((4, 6, 4, 1)[j % 4]), pair=pair, n=int(rng2.integers(3, 10)), nupd=2,
+                                 lkind=STRAINING[rng2.integers(len(STRAINING))], tkind=TEX[rng2.integers(len(TEX))])
+                phi = float((0.0, 1.0, PHI_GRID[rng2.integers(5)], rng2.uniform(0, 1))[(j // 2) % 4])
+                mon += [("alias", sc, phi, m, {}) for m in alias_probe(rec, sc, phi)]
+                count(probes_h, "alias")
+                chk.note_case(("alias", sc["seed"]), nontrivial=True)
+            # degenerate / malformed stream
+            for j, kind in enumerate(DEGENERATE * (1 if chk.tier == "quick" else 8)):
+                pair = (0, int(rng2.integers(0, 5))) if (j + j // 4) % 2 == 0 else (1, 5)
+                sc = MT.scenario(rng2, regime=int((4, 6)[(j // 2) % 2]), pair=pair, n=int(rng2.integers(3, 8)), nupd=2,
+                                 lkind=STRAINING[rng2.integers(len(STRAINING))], tkind=TEX[rng2.integers(len(TEX))])
+                phi = float((0.0, PHI_GRID[rng2.integers(5)], 1.0)[j % 3])
+                mon += [("degenerate", sc, phi, m, {"degenerate_kind": kind}) for m in degenerate_probe(rec, sc, phi, kind, chk, bad)]
+                count(probes_h, "degenerate:" + kind)
+            # (e) bulk update: order of minerals, interleaving, batch vs single (fractions incl. the boundary)
+            nb = 3 if chk.tier == "quick" else 30
+            for i in range(nb + (2 if chk.tier == "quick" else 12)):
+                if i < nb:
+                    sco = MT.scenario(rng, regime=4, pair=(0, int(rng.integers(0, 5))), n=6, nupd=1)
+                    phi = float(rng.uniform(0.2, 0.8))
+                else:                                    # exactly 0 (olivine absent) / exactly 1 (enstatite absent)
+                    sco = MT.scenario(rng2, regime=int((4, 6)[(i // 2) % 2]), pair=(0, int(rng2.integers(0, 5))), n=6, nupd=1,
+                                      lkind=STRAINING[rng2.integers(len(STRAINING))], tkind=TEX[rng2.integers(len(TEX))])
+                    phi = float(i % 2)
                 chk.note_case(("bulk", sco["seed"]), nontrivial=True,
                               sample={"kind": "bulk/interleaving", "phi": phi, "olivine_fabric": sco["pair"][1]})
-                # F fed to the second call differs by rounding between orders (last mineral's F), so compare
-                # first-interval snapshots bitwise and the rest at solver tolerance
-                for a, b, nm in ((mo1, mo2, "olivine"), (me1, me2, "enstatite"), (mo1, mo3, "olivine"), (me1, me3, "enstatite")):
-                    if np.asarray(a.orientations[1]).tobytes() != np.asarray(b.orientations[1]).tobytes():
-                        mon.append((sco, phi, f"{nm}: reordering / interleaving the minerals changed the first update bitwise"))
-                    if tex_diff(a, b) > TOL:
-                        mon.append((sco, phi, f"{nm}: reordering / interleaving the minerals changed the textures by {tex_diff(a, b):.3e}"))
+                mon += [("bulk", sco, phi, m, {}) for m in bulk_probe(sco, phi)]
+                count(probes_h, "bulk")
+                count(hist, "bulk:" + ("interior" if 0 < phi < 1 else f"boundary-{phi:g}"))
         chk.cov["max_multiphase_vs_single_difference"] = worst
         chk.cov["traces_validated_against_impl"] = chk.cov["evaluations"]
     chk.cov["disagreements"] = len(bad)
@@ -120,10 +489,18 @@ def run(chk):
     if ok and not bad and not mon:
         return
     if mon:
-        sc, phi, msg = mon[0]
-        chk.replay({"kind": "property-violation", "scenario": c01.encode_sc(sc), "phase_fraction": phi, "observed": msg,
-                    "all_observed": [m for _, _, m in mon[:6]], "required": "C08",
-                    "broken": chk.cov.get("broken_obligations", []), "disagreements": [m for _, m in bad[:3]]})
+        seen = set()
+        for probe, sc, phi, msg, extra in mon:
+            if probe in seen:
+                continue
+            seen.add(probe)
+            chk.replay(dict({"kind": "property-violation", "probe": probe, "scenario": c01.encode_sc(sc), "phase_fraction": phi,
+                             "observed": msg,
+                             "all_observed": [m for p, s, f, m, _ in mon if p == probe and s is sc and f == phi][:8],
+                             "required": "C08",
+                             "broken": chk.cov.get("broken_obligations", []), "disagreements": [m for _, m in bad[:3]]}, **extra))
+            if len(seen) >= 3:
+                break
     else:
         chk.replay({"kind": "unproved", "broken": chk.cov.get("broken_obligations", []),
                     "disagreements": [m for _, m in bad[:3]],
@@ -131,5 +508,30 @@ def run(chk):
 
 
 def replay(d):
-    print("re-run ./check C08 (the violation is identified by the scenario in the replay file)")
-    return 1
+    common.use_repo_source()
+    if d.get("kind") != "property-violation":
+        print("replay file names a broken obligation / correspondence; re-run ./check C08")
+        return 1
+    sc = d["scenario"]
+    sc["pair"] = tuple(sc["pair"])
+    phi = float(d["phase_fraction"])
+    probe = d.get("probe", "paired")
+    with MT.Recorder() as rec:
+        if probe == "paired":
+            msgs, _ = paired_probe(rec, sc, phi, variants=tuple(d.get("variants", ())))
+        elif probe == "alias":
+            msgs = alias_probe(rec, sc, phi)
+        elif probe == "degenerate":
+            msgs = degenerate_probe(rec, sc, phi, d["degenerate_kind"])
+        elif probe == "bulk":
+            msgs = bulk_probe(sc, phi)
+        else:
+            print("unknown probe", probe)
+            return 1
+    print(f"C08 replay: probe={probe} phase={('olivine', 'enstatite')[sc['pair'][0]]} fabric={sc['pair'][1]} regime={sc['regime']} "
+          f"own phase fraction={phi!r} flow={sc['lkind']} grains={sc['n']}")
+    for m in msgs:
+        print("still fails:", m)
+    if not msgs:
+        print("holds on this input")
+    return 1 if msgs else 0
